@@ -53,7 +53,14 @@ def run(ctx):
                 lit = cl["lit"]
         if lit is None or j["tag"] == "exhaustive-strings" and j["id"] % 4:
             continue
-        jobs.append({"id": len(jobs), "calls": [{"op": "families_json", "lit": lit}, {"op": "text_encode", "lit": lit, "mode": "to_string"}]})
+        calls = [{"op": "families_json", "lit": lit}, {"op": "text_encode", "lit": lit, "mode": "to_string"}]
+        if len(jobs) % 3 == ctx.seed % 3 or not ctx.quick:
+            # the same families built the way a collector that RECYCLES its values builds them (used objects emptied with clear_name /
+            # take_label / take_metric and filled again; or the result copied over used values of other types with Clone::clone_from):
+            # the outcome is that of fresh values, in both data models
+            calls += [{"op": "families_json", "lit": lit, "recycle": "clear"}, {"op": "families_json", "lit": lit, "recycle": "clone_from"},
+                      {"op": "text_encode", "lit": lit, "mode": "to_string", "recycle": "clone_from" if len(jobs) % 2 else "clear"}]
+        jobs.append({"id": len(jobs), "calls": calls})
         meta.append((None, ()))
     special = [
         [{"name": "boot", "help": "h", "type": "GAUGE", "metrics": [{"labels": [["p", "e"]], "gauge": F(1.5), "ts": 0, "ts_force": True}]}],
@@ -95,7 +102,8 @@ def run(ctx):
     for lit in special:
         descs = [{"fq_name": f["name"], "help": f.get("help") or "h", "const": [], "var": []} for f in lit]
         calls = [{"op": "registry", "as": "r"}, {"op": "custom", "as": "cc", "descs": descs, "families": lit}, {"op": "register", "reg": "r", "obj": "cc"},
-                 {"op": "gather", "reg": "r"}, {"op": "text_encode", "reg": "r", "mode": "to_string"}, {"op": "families_json", "lit": lit}, {"op": "text_encode", "lit": lit, "mode": "to_string"}]
+                 {"op": "gather", "reg": "r"}, {"op": "text_encode", "reg": "r", "mode": "to_string"}, {"op": "families_json", "lit": lit}, {"op": "text_encode", "lit": lit, "mode": "to_string"},
+                 {"op": "families_json", "lit": lit, "recycle": "clear"}, {"op": "families_json", "lit": lit, "recycle": "clone_from"}, {"op": "text_encode", "lit": lit, "mode": "to_string", "recycle": "clone_from"}]
         jobs.append({"id": len(jobs), "calls": calls})
         meta.append((None, ()))
     nok = 0
@@ -125,6 +133,24 @@ def run(ctx):
                         sorted(c["sel"]), list(o), k, json.dumps(call)[:120], json.dumps(x)[:300], json.dumps(y)[:300], who), {"calls": j["calls"][:k + 1]})
                     ok = False
                     break
+            # within each build: recycled values give what fresh values give
+            if ok:
+                for which, rs in (("protobuf-backed", a), ("plain", b)):
+                    ref = {}
+                    for call, x in zip(j["calls"], rs):
+                        if "lit" not in call or call["op"] not in ("families_json", "text_encode"):
+                            continue
+                        xs = {"ok": strip(x["ok"])} if call["op"] == "families_json" and "ok" in x else x
+                        if "recycle" not in call:
+                            ref[call["op"]] = xs
+                        elif call["op"] in ref and ref[call["op"]] != xs:
+                            ncmp += 1
+                            ctx.violation("recycled-values-differ:" + call["recycle"], "%s model: families built from recycled values (%s) read %s, built from fresh values %s" % (
+                                which, call["recycle"], json.dumps(xs)[:300], json.dumps(ref[call["op"]])[:300]), {"calls": j["calls"]})
+                            ok = False
+                            break
+                    if not ok:
+                        break
             nok += 1 if ok else 0
         del ra, rb
     ctx.cov.update({"traces_validated_against_impl": nok, "scenarios": len(jobs), "custom_collector_family_scenarios": len(jobs) - nbase, "scenarios_identical": nok, "call_results_compared": ncmp, "configurations": len(cases),
